@@ -8,8 +8,8 @@ from sx.runner import Harness
 
 ID = "C25"
 MANIFEST = {
-    "technique": "bounded model checking with solver-decided choice (SX engine): the shape of every slot of a contents tree built on a real scratch directory (file / symlink / fifo, hardlink partner or separate file with set-id mode, a name with a space, symlinks to a directory, to a file and dangling, entries listed below a symlinked directory, the empty set) and the compressor are symbolic selectors; the engine forks over every feasible combination, runs the real livefs.scan, tar.write_set and tar.generate_contents (add_contents_to_tarfile, fsobj_to_tarinfo, archive_to_fsobj, convert_archive) and compares the entries read back with the ones written",
-    "level_text": "Bounded model checking, exhaustive within the bound (3 x 3 x 4 image shapes x listed-through-symlink yes/no x empty/non-empty x two spellings of the bzip2 compressor): every entry comes back with its path, type, mode, ownership, mtime, symlink target and file data; files that shared an inode still share one and no others do; entries listed below a directory symlink come back below its target; an empty set gives an empty archive that reads as an empty set. Selector-only; real code on real files (tarfile/bz2 are C-backed and not modelled).",
+    "technique": "bounded model checking with solver-decided choice (SX engine): the shape of every slot of a contents tree built on a real scratch directory (file / symlink / fifo, hardlink partner or separate file with set-id mode, a name with a space, symlinks to a directory, to a file and dangling, entries listed below a symlinked directory and below a second symlinked directory inside the first, the empty set) and the compressor are symbolic selectors; the engine forks over every feasible combination, runs the real livefs.scan, tar.write_set and tar.generate_contents (add_contents_to_tarfile, fsobj_to_tarinfo, archive_to_fsobj, convert_archive) and compares the entries read back with the ones written",
+    "level_text": "Bounded model checking, exhaustive within the bound (3 x 3 x 4 image shapes x listed-through-symlink yes/no (and through a chain of two) x empty/non-empty x two spellings of the bzip2 compressor): every entry comes back with its path, type, mode, ownership, mtime, symlink target and file data; files that shared an inode still share one and no others do; entries listed below a directory symlink come back below its target; an empty set gives an empty archive that reads as an empty set. Selector-only; real code on real files (tarfile/bz2 are C-backed and not modelled).",
     "level_note": "selector-only harness (labelled as such).",
 }
 META = {
@@ -42,7 +42,7 @@ def describe(cset):
 
 class TarHarness(Harness):
     def setup(self, eng):
-        inp = {"new_f": self.ob["new_f"], "new_g": eng.int("new_g", 0, len(M.NEW_G) - 1), "new_l": self.ob["new_l"], "comp": eng.int("compressor", 0, 1), "empty": eng.bool("empty_set"), "via_link": eng.bool("entry_listed_below_a_symlinked_directory")}
+        inp = {"new_f": self.ob["new_f"], "new_g": eng.int("new_g", 0, len(M.NEW_G) - 1), "new_l": self.ob["new_l"], "comp": eng.int("compressor", 0, 1), "empty": eng.bool("empty_set"), "via_link": eng.bool("entry_listed_below_a_symlinked_directory"), "chain": eng.bool("and_below_a_second_symlinked_directory_inside_the_first") if M.NEW_L[self.ob["new_l"]] == "sym-to-dir" else False}
         return inp
 
     def body(self, inp):
@@ -67,6 +67,13 @@ class TarHarness(Harness):
                 src = cset["/s/x y"]
                 cset.add(src.change_attributes(location="/l/via"))
                 want_extra["/d/via"] = "/l/via"
+                if c.get("chain"):
+                    # ... and /l/m -> e is itself a symlinked directory with an entry recorded through both: lands in /d/e
+                    cset.add(cset["/l"].change_attributes(location="/l/m", target="e"))
+                    cset.add(cset["/d"].change_attributes(location="/d/e"))
+                    cset.add(src.change_attributes(location="/l/m/deep"))
+                    want_extra["/d/m"] = "/l/m"
+                    want_extra["/d/e/deep"] = "/l/m/deep"
             want, want_groups = describe(cset)
             for new, old in want_extra.items():
                 want[new] = want.pop(old)
@@ -105,7 +112,7 @@ class TarHarness(Harness):
             wg = [[want_extra_inv(l, want_extra) for l in g] for g in want_groups]
             if sorted(sorted(g) for g in wg) != got_groups:
                 problems.append(f"hardlink groups {got_groups} instead of {wg}")
-        return {"shape": {"new_f": M.NEW_F[c["new_f"]], "new_g": M.NEW_G[c["new_g"]], "new_l": M.NEW_L[c["new_l"]]}, "compressor": COMP[c["comp"]], "empty": c["empty"], "via_link": c["via_link"], "problems": problems}
+        return {"shape": {"new_f": M.NEW_F[c["new_f"]], "new_g": M.NEW_G[c["new_g"]], "new_l": M.NEW_L[c["new_l"]]}, "compressor": COMP[c["comp"]], "empty": c["empty"], "via_link": c["via_link"], "chain": bool(c.get("chain")), "problems": problems}
 
     def prop(self, inp, obs):
         return not obs["problems"]
